@@ -372,6 +372,27 @@ def _classify_insertion(ctx, f, cfg, n: Node, c: ast.Call, cname, other, Xn, Gn,
     return None, "no path condition shows the container is empty and no curvature test guards this insertion"
 
 
+@rule("MAXLEN", min_instances=0)
+def rule_maxlen(ctx: Ctx) -> List[Ob]:
+    """a history container built with a bound evicts silently: if maxlen= is used for the point / gradient deques it must
+    be exactly maxcor + 1 (one more point than correction pairs) -- a smaller bound caps the memory below the requested size
+    for the rest of the run, a larger one lets it exceed it"""
+    obs: List[Ob] = []
+    from ..flow import Expander
+    for q, f in ctx.repo.funcs.items():
+        if f.module.name not in ("main", "bfgsmats") or "maxcor" not in f.params and f.name not in ("minimize_lbfgsb",):
+            continue
+        ex = Expander(ctx, f)
+        for s in walk_no_nested(f.node):
+            if isinstance(s, (ast.Assign, ast.AnnAssign)) and isinstance(getattr(s, "value", None), ast.Call) and \
+                    (dotted(s.value.func) or "").split(".")[-1] in ("deque", "Deque") and kw(s.value, "maxlen") is not None:
+                m_ = ex.expand_at(s, kw(s.value, "maxlen"))
+                ok = canon_in(m_, "maxcor + 1")
+                obs.append(ob("MAXLEN", "a bounded history deque is bounded by maxcor + 1", f, s, ok,
+                              f"maxlen = {short(m_, 60)}" + ("" if ok else ": not maxcor + 1"), construct=short(s, 70)))
+    return obs
+
+
 def _bounded(ctx, f, cfg, n: Node, c: ast.Call, cname: str, other: str) -> Tuple[bool, str]:
     # constructor with maxlen
     for s in walk_no_nested(f.node):
